@@ -1058,6 +1058,9 @@ func rawXML(r *Run, innerToo bool) {
 					san = isXMLSanitiser(p, staticCallee(cc))
 					name = calleeName(cc)
 				}
+				if !san && sanitisedValue(p, v, map[ssa.Value]bool{}) {
+					san = true // an escaper's result on every path, possibly through a cache of escaped values
+				}
 				r.Check("raw-xml", fmt.Sprintf("%s:value#%d", shortName(top), idx), c.Pos(), san,
 					fmt.Sprintf("%s writes a data value into the raw XML text it rebuilds; the value passes through %s, which is not an encoding/xml escaper: characters that are not legal in XML survive and make the part ill-formed", shortName(top), name))
 			})
@@ -1405,6 +1408,99 @@ func guardedByFullScan(p *Program, f *ssa.Function, ret *ssa.Return) bool {
 		if lowCtl && highAscii && chars['&'] && chars['<'] && chars['>'] && chars['"'] && chars['\''] {
 			return true
 		}
+	}
+	return false
+}
+
+
+// sanitisedValue: v is the result of an encoding/xml escaper on every path — directly, as a phi of
+// such values, or read out of a map (a per-render cache of escaped texts) into which only such
+// values are ever put and which is created for the purpose (a fresh map here or at every caller).
+func sanitisedValue(p *Program, v ssa.Value, visiting map[ssa.Value]bool) bool {
+	v = stripConv(v)
+	if visiting[v] {
+		return true
+	}
+	visiting[v] = true
+	switch x := v.(type) {
+	case *ssa.Call:
+		return isXMLSanitiser(p, staticCallee(x))
+	case *ssa.Phi:
+		for _, e := range x.Edges {
+			if !sanitisedValue(p, e, visiting) {
+				return false
+			}
+		}
+		return len(x.Edges) > 0
+	case *ssa.Extract:
+		if lk, ok := x.Tuple.(*ssa.Lookup); ok && x.Index == 0 {
+			return sanitisedMap(p, lk.X, visiting)
+		}
+	case *ssa.Lookup:
+		return sanitisedMap(p, x.X, visiting)
+	}
+	return false
+}
+
+func sanitisedMap(p *Program, m ssa.Value, visiting map[ssa.Value]bool) bool {
+	fn := m.Parent()
+	if fn == nil {
+		return false
+	}
+	okAll, n := true, 0
+	allInstrs(fn, func(in ssa.Instruction) {
+		if mu, ok := in.(*ssa.MapUpdate); ok && mu.Map == m {
+			n++
+			if !sanitisedValue(p, mu.Value, visiting) {
+				okAll = false
+			}
+		}
+	})
+	if !okAll {
+		return false
+	}
+	switch x := m.(type) {
+	case *ssa.MakeMap:
+		return n > 0
+	case *ssa.Parameter:
+		pi := paramIndex(fn, x)
+		sites := staticCallSites(p, fn)
+		if len(sites) == 0 || pi < 0 {
+			return false
+		}
+		for _, cs := range sites {
+			if pi >= len(cs.Common().Args) {
+				return false
+			}
+			a := cs.Common().Args[pi]
+			mk, isMk := a.(*ssa.MakeMap)
+			if !isMk {
+				// a local that holds a fresh map and is only handed on
+				if ld, ok := a.(*ssa.UnOp); ok {
+					if al, ok := ld.X.(*ssa.Alloc); ok && al.Referrers() != nil {
+						for _, u := range *al.Referrers() {
+							if st, ok := u.(*ssa.Store); ok && st.Addr == ssa.Value(al) {
+								mk, isMk = st.Val.(*ssa.MakeMap)
+							}
+						}
+					}
+				}
+			}
+			if !isMk || mk == nil {
+				return false
+			}
+			// the caller itself puts nothing into it
+			bad := false
+			allInstrs(cs.Parent(), func(in ssa.Instruction) {
+				if mu, ok := in.(*ssa.MapUpdate); ok && mu.Map == ssa.Value(mk) {
+					bad = true
+				}
+			})
+			if bad {
+				return false
+			}
+		}
+		return n > 0
 	}
 	return false
 }
